@@ -35,7 +35,8 @@ RULE = ("(1) unit differential: messages of all 15 kinds in rotation with bounda
         "are checked against the model's encode/frame on every run): the raw bytes the real endpoint writes must split, with the "
         "model's unframe, into complete frames - Reset, Hello(3, configured cfg), then canonical v3 messages, every Data header "
         "followed by one payload frame within the peer's chunk size; the endpoint must complete Connect::io and receive the echoed "
-        "value when the peer's bytes arrive in arbitrary pieces; a frame of exactly chunk_size payload is accepted, a frame one "
+        "value when the peer's bytes arrive in arbitrary pieces, also when undecodable frames precede the peer's Reset/Hello; it then "
+        "sends a 300-byte value (chunks of the peer's announced size, possibly above its own receive limit) and must stay alive; a frame of exactly chunk_size payload is accepted, a frame one "
         "byte above maxMsgLength + chunk_size ends the connection (every frame counted as non-trivial).")
 TRUSTED_BASE = [
     "M_wire (lean/RemocModel/Wire/Model.lean) is a hand-written, pinned statement of the v3 layout; it is not generated from msg.rs",
